@@ -35,6 +35,9 @@ func isMacroDefinition(node ast.Node) bool {
 	if !ok {
 		return false
 	}
+	if _, isID := exp.Left.(*ast.Identifier); !isID {
+		return false // a[0] = macro(..){..} or "s" = macro(..){..}: not a definition (addMacro needs a name).
+	}
 	_, ok = exp.Right.(*ast.MacroLiteral)
 	return ok
 }
